@@ -473,6 +473,8 @@ func runBlackBox(r *hx.Result, cfg hx.Config, rng *rand.Rand, drv *model.Driver)
 	b.pubsubPayloads()
 	b.keyspaceModes()
 	b.mvtTiles()
+	b.helloModes()
+	b.clientList()
 	for _, st := range states {
 		b.st = st
 		b.reset()
